@@ -112,6 +112,16 @@ def c03_events(term, out):
         out.violate(PROP, f"C03|import-missing|{last_call_op(term)}",
                     f"VM resolves {miss[:2]} not imported by decompiled program {src!r}", term.replay(), len(term.seq))
     miss = _mult_missing(v_calls, d_calls)
+    if not miss:
+        # a real call (REDUCE / OBJ / INST: callee(*args)) must be rendered as a call; only NEWOBJ's cls.__new__(cls, *args)
+        # may be rendered either way (fickling documents NEWOBJ => cls(*args))
+        v_real = [c for c, k in zip(v_calls, v_calls.kinds) if k == "call"]
+        d_real = [c for c, k in zip(d_calls, d_calls.kinds) if k == "call"]
+        wrong = _mult_missing(v_real, d_real)
+        if wrong:
+            out.violate(PROP, f"C03|call-rendered-as-__new__|{last_call_op(term)}",
+                        f"VM calls {_short(wrong[0])} but the decompiled program only instantiates it through __new__: {src!r}",
+                        term.replay(), len(term.seq))
     if miss:
         kind = miss[0][1] if isinstance(miss[0], tuple) and len(miss[0]) > 1 else "?"
         out.violate(PROP, f"C03|call-missing|{kind}|{last_call_op(term)}",
